@@ -1,10 +1,12 @@
 # -*- coding: utf-8 -*-
 """Check base class, violation records, known-findings matching."""
 import collections
+import contextlib
 import hashlib
 import json
 import os
 import random
+import time
 
 from vmon import bootstrap
 
@@ -42,6 +44,34 @@ def load_known_findings(prop):
     return [entry for entry in data.get('findings', []) if entry.get('property') == prop]
 
 
+TIME_ZONES = ('UTC', 'EST5EDT,M3.2.0,M11.1.0', 'JST-9', 'IST-5:30', 'Europe/Moscow', 'America/Caracas', 'Pacific/Apia',
+              'Australia/Lord_Howe', 'CET-1CEST,M3.5.0,M10.5.0/3', '<-03>3')
+
+
+@contextlib.contextmanager
+def case_time_zone(check, case):
+    """The library must behave identically under every TZ, so every case is judged under a time zone picked
+    deterministically from the case itself (the same case replays under the same zone). Checks that steer TZ
+    themselves (C11) opt out with TZ_ROTATION = False."""
+    if not getattr(check, 'TZ_ROTATION', True):
+        yield
+        return
+    digest = hashlib.sha1(json.dumps(jsonable(case), sort_keys=True).encode('utf-8', 'replace')).digest()
+    zones = [zone for zone in TIME_ZONES if '/' not in zone or os.path.exists('/usr/share/zoneinfo/' + zone)]
+    zone = zones[digest[0] % len(zones)]
+    before = os.environ.get('TZ')
+    os.environ['TZ'] = zone
+    time.tzset()
+    try:
+        yield
+    finally:
+        if before is None:
+            os.environ.pop('TZ', None)
+        else:
+            os.environ['TZ'] = before
+        time.tzset()
+
+
 def key_matches(entry_key, key):
     """Entries may end with '*' to cover a family that differs only in the final component."""
     if entry_key.endswith('*'):
@@ -57,6 +87,7 @@ class CheckBase(object):  # pylint: disable=too-many-instance-attributes
     SHARDS = {'quick': 1, 'thorough': 16}
     EXHAUSTIVE = False
     MAX_SAMPLES = 8
+    TZ_ROTATION = True
 
     def __init__(self, tier, seed, shard=0, nshards=1):
         self.tier = tier
